@@ -2,6 +2,15 @@
 """Generate /verif/MANIFEST.json from the per-property table below (kept here so the manifest stays valid)."""
 import json, os
 CLAIMS = {
+ "C02": ("other", "panic-site audit (MIR sites discharged on symbolic path conditions) + effect tracing + reader/writer agreement",
+   "Decides the structural clauses: Encoder::from_h never panics for 1 <= rows <= cols (every MIR assert / panicking call reachable, incl. is_staircase and gauss_reduction, is discharged by a guard on the path or a reviewed argument) and maps NotInvertible to an error; encode returns [message | parity] with the message operand unmodified; the positions is_staircase accepts are exactly the equations the accumulator arm solves (generator = H0 copied unchanged, parity[j] += parity[j-1] for j in 1..len); dense arm column map, generator slice and product. Gauss-Jordan correctness, H c = 0, success-iff-invertible and linearity are algebraic value properties and are not decided.",
+   "Trusted: the panic model of std/ndarray functions (ldpcv/panics.py), reviewed ledger entries (pivot non-zero by data, slice/swap bounds), the caller's contract on message length."),
+ "C08": ("other", "panic-site audit of parser and writers + format-template decoding and token-flow agreement between writer and reader",
+   "Decides parser totality (every panic-capable site reachable from from_alist is guarded on its path; no unwrap on input), writer arithmetic (incl. the all-zero matrix), and writer/reader layout agreement: header order, 4 lines before the lists on both sides, column lists first, index+1 <-> token-1, sorted lists, `0` padding only under use_padding and skipped by the reader. Round-trip equality for all matrices is an all-input value equality and is not decided; the rules are its structural necessary conditions.",
+   "Trusted: panic model of library functions; decoding of core::fmt's template byte encoding; moderate declared dimensions (allocation succeeds)."),
+ "C09": ("other", "panic-site audit + placement rule for explicit assertions + provenance of every insert",
+   "Decides never-panics for 1 <= rows <= cols (all reachable MIR sites discharged; each assert!(k < m-n) must sit exactly on the path that writes a free column), the copy discipline (rows of input column s go to the write pointer or to m-n+j of a same-sized matrix; pointer advances once per free column) and the error mapping. 'Error iff rank-deficient', invertibility of the last columns and bijectivity of the column map depend on elimination correctness and are not decided.",
+   "Trusted: panic model; reviewed entries (pivot non-zero by data, slice/swap bounds, counting argument for the free columns under full rank)."),
  "C06": ("other", "constant propagation over const fns + literal-table rules + symbolic normal form of the expansion loop",
    "Decides the table- and shape-level clauses: n/m/k/q of all 21 codes vs ETSI tables and internal relations; address tables (row count, range, distinctness, degree profile, pinned values); the quasi-cyclic expansion and dual-diagonal part in Code::h as a symbolic normal form; staircase reader/writer agreement (so the linear-time encoder arm is taken); thorough adds a table-level 4-cycle test. Matrix-level girth 6 and equality with a reference matrix beyond tables+shape are not decided (value computation = running the construction).",
    "Trusted: my transcription of ETSI Tables 5a/5b/7a/7b and the degree profiles; the pinned address tables are a tree reference (values of the pinned commit)."),
